@@ -10,7 +10,7 @@ RULE = ('envelope generator: {05, 06, damaged, no} header x {RS EOT, RS only, EO
         'every alphabet x macro flag x FNC1 flag x mode subsets, each encoded then decoded (rt); envelopes whose digit / letter body fills a '
         'single-symbol list (body lengths around the capacity, where the compacted message fits and the verbatim one does not); non-trivial = message with a '
         'header or trailer fragment')
-THEOREMS = 'C16_first_codeword, C16_detection, C16_strip_sets_input, C16_stream_shape, C16_decoder_macro05, C16_decoder_macro06, C16_decoder_fnc1, C16_macro_roundtrip_ascii_only, C16_fnc1_roundtrip_ascii_only, C16_macro_roundtrip_ab, C16_fnc1_roundtrip_ab, C16_macro_roundtrip_ax, C16_fnc1_roundtrip_ax, C16_macro_roundtrip_ac, C16_fnc1_roundtrip_ac'
+THEOREMS = 'C16_first_codeword, C16_detection, C16_strip_sets_input, C16_stream_shape, C16_decoder_macro05, C16_decoder_macro06, C16_decoder_fnc1, C16_macro_roundtrip_ascii_only, C16_fnc1_roundtrip_ascii_only, C16_macro_roundtrip_ab, C16_fnc1_roundtrip_ab, C16_macro_roundtrip_ax, C16_fnc1_roundtrip_ax, C16_macro_roundtrip_ac, C16_fnc1_roundtrip_ac, C16_macro_roundtrip_mixed, C16_fnc1_roundtrip_mixed'
 ASSUMPTIONS = ['the sort order of remove_hopeless_cases is taken from the implementation (hook trace)']
 
 
